@@ -137,7 +137,7 @@ def list_structures(draw, member=None, malformed=True):
     """(kind, triples): a list attached to urn:s via urn:list, well-formed or one of the malformed shapes"""
     member = member or st.one_of(gt.iris(rich=False), gt.literals(xml_safe=True), gt.falsy_literals())
     ms = draw(st.lists(member, max_size=4))
-    kinds = ["ok", "ok", "nested", "shared-tail", "unattached"]
+    kinds = ["ok", "ok", "nested", "shared-tail", "unattached", "bnode-members", "bnode-members", "bnode-members", "bnode-members"]
     if malformed:
         kinds += ["two-first", "no-rest", "extra-prop", "cyclic", "cyclic-noentry", "nil-props", "iri-cell", "no-first"]
     kind = draw(st.sampled_from(kinds))
@@ -152,6 +152,21 @@ def list_structures(draw, member=None, malformed=True):
         ih, it = rdf_list(draw(st.lists(member, max_size=2)), pre="i")
         h2, t2 = rdf_list(ms + [ih], pre="l")
         triples = t2 + it + [[["u", "urn:s"], ["u", "urn:list"], h2]]
+    elif kind == "bnode-members":
+        # members that are blank nodes with properties of their own, referenced from elsewhere too; the list may hang off one of them
+        bm = [B(i, "m") for i in range(3)]
+        ms2 = [draw(st.one_of(st.sampled_from(bm), st.sampled_from(bm), member)) for _ in range(draw(st.integers(1, 3)))]
+        owners = [["u", "urn:s"], ["u", "urn:z"]] + bm
+        owner = draw(st.sampled_from(owners))
+        if draw(st.booleans()):
+            # a member that a serializer has met before it reaches the list: the owner itself, or a node hanging off an earlier subject
+            ms2[draw(st.integers(0, len(ms2) - 1))] = owner if owner[0] == "b" and draw(st.booleans()) else bm[0]
+        head, t = rdf_list(ms2)
+        triples = [[["u", "urn:a"], ["u", "urn:p"], bm[0]], [bm[0], ["u", "urn:q"], ["l", "v", None, None]]] + list(t)
+        triples.append([owner, ["u", "urn:list"], head])
+        for _ in range(draw(st.integers(1, 4))):
+            triples.append([draw(st.sampled_from(owners)), ["u", draw(st.sampled_from(["urn:p", "urn:q"]))],
+                            draw(st.one_of(st.sampled_from(bm), st.just(["l", "v", None, None]), st.just(["u", "urn:o"])))])
     elif kind == "shared-tail":
         triples.append(attach)
         if len(ms) >= 2:
